@@ -195,9 +195,7 @@ type FileCase struct {
 }
 
 func TestRegenerateEverything(t *testing.T) {
-	if pbt.ReplayOnly() {
-		t.Skip()
-	}
+	// in replay mode the whole (cheap) enumeration is simply run again
 	if sh, _ := pbt.Shard(); sh != 0 {
 		t.Skip()
 	}
@@ -433,9 +431,6 @@ func field(blk yaml.MapSlice, name string) interface{} {
 }
 
 func TestSpecsMatchCatalogue(t *testing.T) {
-	if pbt.ReplayOnly() {
-		t.Skip()
-	}
 	if sh, _ := pbt.Shard(); sh != 0 {
 		t.Skip()
 	}
